@@ -91,8 +91,16 @@ class Machine:
             return self._new(L[a[0]][slice(_n(a[1]), _n(a[2]), _n(a[3]))])
         if op == "fancy":
             idx = list(a[1])
-            if self.use_numpy_index:
+            # every kind of "iterable of integers": list, ndarray, tuple, one-shot generator / iterator
+            kind = (len(idx) + a[0] + (1 if self.use_numpy_index else 0)) % 5
+            if kind == 1:
                 idx = np.array(idx, dtype=int)
+            elif kind == 2:
+                idx = tuple(idx)
+            elif kind == 3:
+                idx = (i for i in list(idx))
+            elif kind == 4:
+                idx = iter(idx)
             return self._new(L[a[0]][idx])
         if op == "repeat":
             return self._new(L[a[0]].repeat(a[1]))
